@@ -10,6 +10,7 @@ import (
 	"fmt"
 	"io"
 	"math"
+	"sort"
 	"strconv"
 	"strings"
 	"sync/atomic"
@@ -370,6 +371,99 @@ func checkTextFormats(r *ev.Run) {
 		}
 		if _, err := or.ReadFace(); err != io.EOF {
 			r.Violation("off/eof", fmt.Sprintf("ReadFace after the last face returned %v, want io.EOF", err), map[string]interface{}{"text": sb.String()})
+		}
+	}
+	// OFF with polygonal faces through the mesh-level reader: every rotation and both windings of convex and
+	// concave quads (blunt and sharp darts), a pentagon, an L-shaped hexagon and a comb, in three planes. The
+	// triangles read back must use the face's vertices, keep its orientation (Newell normal) and cover its area.
+	polys := map[string][][2]float64{
+		"rectangle":   {{0, 0}, {3, 0}, {3, 2}, {0, 2}},
+		"trapezoid":   {{0, 0}, {4, 0}, {3, 2}, {1, 2}},
+		"blunt-dart":  {{0, 0}, {2, 1}, {4, 0}, {2, 3}},
+		"sharp-dart":  {{-1, 0}, {0, 1}, {1, 0}, {0, 4}},
+		"wide-dart":   {{-4, 0}, {0, 1}, {4, 0}, {0, 2}},
+		"pentagon":    {{0, 0}, {2, -1}, {4, 0}, {3, 3}, {1, 3}},
+		"concave-pen": {{0, 0}, {4, 0}, {4, 4}, {2, 1}, {0, 4}},
+		"L-hexagon":   {{0, 0}, {3, 0}, {3, 1}, {1, 1}, {1, 3}, {0, 3}},
+		"comb":        {{0, 0}, {5, 0}, {5, 3}, {4, 3}, {4, 1}, {3, 1}, {3, 3}, {2, 3}, {2, 1}, {1, 1}, {1, 3}, {0, 3}},
+	}
+	var pnames []string
+	for k := range polys {
+		pnames = append(pnames, k)
+	}
+	sort.Strings(pnames)
+	planes := [][2]model3d.Coord3D{{model3d.X(1), model3d.Y(1)}, {model3d.XYZ(1, 1, 0), model3d.XYZ(0, 1, 1)}, {model3d.XYZ(2, -1, 1), model3d.XYZ(1, 3, -1)}}
+	for _, pn := range pnames {
+		base := polys[pn]
+		for pi, pl := range planes {
+			for rot := 0; rot < len(base); rot++ {
+				for _, rev := range []bool{false, true} {
+					var poly []model3d.Coord3D
+					for i := range base {
+						q := base[(i+rot)%len(base)]
+						if rev {
+							q = base[((rot-i)%len(base)+len(base))%len(base)]
+						}
+						poly = append(poly, model3d.XYZ(1, -2, 3).Add(pl[0].Scale(q[0])).Add(pl[1].Scale(q[1])))
+					}
+					var sb strings.Builder
+					fmt.Fprintf(&sb, "OFF\n%d 1 0\n", len(poly))
+					for _, v := range poly {
+						fmt.Fprintf(&sb, "%s %s %s\n", g(v.X), g(v.Y), g(v.Z))
+					}
+					fmt.Fprintf(&sb, "%d", len(poly))
+					for i := range poly {
+						fmt.Fprintf(&sb, " %d", i)
+					}
+					sb.WriteString("\n")
+					r.Eval(1)
+					r.NontrivialAdd(1)
+					cs := map[string]interface{}{"text": sb.String(), "polygon": pn, "plane": pi, "start": rot, "reversed": rev}
+					var tris []*model3d.Triangle
+					var err error
+					if p := ev.Try(func() { tris, err = model3d.ReadOFF(strings.NewReader(sb.String())) }); p != "" {
+						r.Violation("off-polygon/panic", fmt.Sprintf("%s (plane %d, start %d, reversed %v): panic: %s", pn, pi, rot, rev, p), cs)
+						continue
+					}
+					if err != nil {
+						r.Violation("off-polygon/read-error", fmt.Sprintf("%s (plane %d, start %d, reversed %v): %v", pn, pi, rot, rev, err), cs)
+						continue
+					}
+					// Newell normal and area of the written face
+					var nn model3d.Coord3D
+					for i := range poly {
+						a, b := poly[i], poly[(i+1)%len(poly)]
+						nn = nn.Add(a.Cross(b))
+					}
+					area := nn.Norm() / 2
+					isVert := map[model3d.Coord3D]bool{}
+					for _, v := range poly {
+						isVert[v] = true
+					}
+					sum, msg := 0.0, ""
+					for _, t := range tris {
+						for k := 0; k < 3; k++ {
+							if !isVert[t[k]] {
+								msg = fmt.Sprintf("triangle vertex %v is not a vertex of the face", t[k])
+							}
+						}
+						tn := t[1].Sub(t[0]).Cross(t[2].Sub(t[0]))
+						if tn.Norm() < 1e-12 {
+							continue // a zero-area triangle adds nothing to the covered face (cf. C14)
+						}
+						if tn.Dot(nn) <= 0 {
+							msg = fmt.Sprintf("triangle %v is wound against the face", *t)
+						}
+						sum += tn.Norm() / 2
+					}
+					if msg == "" && math.Abs(sum-area) > 1e-9*(1+area) {
+						msg = fmt.Sprintf("triangles cover area %g, the face has area %g", sum, area)
+					}
+					if msg != "" {
+						r.Violation("off-polygon/faces", fmt.Sprintf("%s (plane %d, start %d, reversed %v): %s", pn, pi, rot, rev, msg), cs)
+					}
+				}
+			}
 		}
 	}
 }
